@@ -13,6 +13,9 @@ generated geometry, full reads) predicts the offset handed to the zip reader.
 `proc <tree> <rc> <args>` = the real CLI executable packed and started with a command line:
 demanded and predicted `proc srcmarker=0 exit=<rc> entry=ran clean=1` for every command line.
 
+`seq <first> <mode> <n2> <k2> <t2> <rc> <proc>` = a project packed into a target that already
+exists (earlier pack / unrelated file / other mode): predicted `seq fresh=same x=1 off=… exit=<rc> files=ok`.
+
 Result: `off=<pos|none> <exit=<rc> files=ok | fall | misfound>`; `HANG` if the model loop
 makes no progress. `spec=`/`kf=` are attached when the model's result is not what
 the property demands for this case (first occurrence of the marker is the one
@@ -59,6 +62,21 @@ def showRes (trueStart : Nat) (rc : String) : Res → String
 
 def runCase (payload : String) : String :=
   match payload.splitOn " " with
+  | ["seq", _first, _mode, n2, k2, _t2, rc, proc] =>
+    -- the layout has no memory (`pack_overwrites`, `pack_truncates`): whatever the target was
+    -- before, the file is the fresh pack of the last project; it is executable and runs
+    match n2.toInt?, k2.toNat? with
+    | some n2, some k2 =>
+      let M := geom.marker
+      let scanPart :=
+        if n2 < 0 then s!"off=cli+{M.length} exit={rc} files=ok"   -- the real CLI as source binary
+        else
+          let n := n2.toNat
+          let data := layout M (fill n k2 0) [80, 75, 3, 4]
+          showRes (n + M.length) rc (Impl.scan geom Impl.fullReads data)
+      let procPart := if proc = "1" then s!" proc:exit={rc}:entry=ran" else ""
+      s!"seq fresh=same x=1 {scanPart}{procPart}\tnt=1"
+    | _, _ => "bad-payload"
   | ["proc", _tree, rc, _args] =>
     -- the real executable: `main` calls RunPackedBinary first and unconditionally
     -- (`Gen.mainCallsRunPackedFirst`, obligation `main_runs_packed_first`), so the command line
